@@ -102,7 +102,26 @@ fn doc_content(d: &Doc) -> Vec<Vec<(String, String)>> {
     d.paras.iter().map(|p| p.fields.iter().map(|f| (f.name.clone(), field_value(f))).collect()).collect()
 }
 
-fn esc(s: &str) -> String { format!("{:?}", s) }
+/// a JSON string literal (Rust's Debug form is not JSON: it writes control and invisible characters as \u{..})
+fn esc(s: &str) -> String {
+    let mut o = String::from("\"");
+    for c in s.chars() {
+        match c {
+            '"' => o.push_str("\\\""),
+            '\\' => o.push_str("\\\\"),
+            '\n' => o.push_str("\\n"),
+            '\r' => o.push_str("\\r"),
+            '\t' => o.push_str("\\t"),
+            c if (c as u32) < 0x20 || c == '\u{7f}' || c == '\u{feff}' || ('\u{200b}'..='\u{200f}').contains(&c) || c == '\u{2028}' || c == '\u{2029}' => {
+                let mut buf = [0u16; 2];
+                for u in c.encode_utf16(&mut buf) { o.push_str(&format!("\\u{:04x}", u)); }
+            }
+            c => o.push(c),
+        }
+    }
+    o.push('"');
+    o
+}
 #[derive(Debug, Clone)]
 struct Fail { prop: String, input: String, what: String, expected: String, got: String }
 impl Fail {
@@ -898,6 +917,50 @@ mod sat {
     }
 }
 // ---------------------------------------------------------------------------------------------------------
+// C19 (bounded stand-in, concrete inputs for the proved contract): clear-signed messages assembled from header, payload and
+// signature lines (no CR: the trailing-CR case is a recorded finding of the proof) come back as exactly the payload and
+// the concatenated signature lines; text that does not begin with the marker comes back unchanged
+mod pgp19 {
+    use super::{Fail, Rng};
+    fn fail(input: &str, what: &str, expected: String, got: String) -> Fail { Fail { prop: "C19".into(), input: input.into(), what: what.into(), expected, got } }
+    pub fn run() -> Result<usize, Fail> {
+        let mut r = Rng(crate::seed_mix(0x510E527FADE682D1));
+        let lines: &[&str] = &["Source: foo", "Description: bar\t", " .", "  ", "", "last ", "- dash", "x"];
+        let sigs: &[&str] = &["AAAA", "", "BBBB", "=olY7", "Version: GnuPG v1", "iQIzBAEB"];
+        let mut n = 0;
+        for _ in 0..2000 * crate::scale() {
+            let np = r.below(5); let ns = r.below(4);
+            let payload: Vec<&str> = (0..np).map(|_| *r.pick(lines)).collect();
+            let sig: Vec<&str> = (0..ns).map(|_| *r.pick(sigs)).collect();
+            let mut t = String::from("-----BEGIN PGP SIGNED MESSAGE-----\nHash: SHA256\n\n");
+            for l in &payload { t.push_str(l); t.push('\n'); }
+            t.push_str("-----BEGIN PGP SIGNATURE-----\n");
+            for l in &sig { t.push_str(l); t.push('\n'); }
+            t.push_str("-----END PGP SIGNATURE-----\n");
+            n += 1;
+            let want_payload: String = payload.iter().map(|l| format!("{}\n", l)).collect();
+            let want_sig: String = sig.concat();
+            match std::panic::catch_unwind(|| debian_control::pgp::strip_pgp_signature(&t)) {
+                Ok(Ok((p, s))) => {
+                    if p != want_payload { return Err(fail(&t, "the payload of a clear-signed message is not returned exactly", format!("{:?}", want_payload), format!("{:?}", p))); }
+                    if s.as_deref() != Some(want_sig.as_str()) { return Err(fail(&t, "the signature is not the concatenation of the signature lines", format!("{:?}", want_sig), format!("{:?}", s))); }
+                }
+                Ok(Err(e)) => return Err(fail(&t, "a complete clear-signed message is rejected", "Ok".into(), format!("{:?}", e))),
+                Err(_) => return Err(fail(&t, "strip_pgp_signature panics", "a value".into(), "panic".into())),
+            }
+        }
+        for t in ["", " ", "\n\n", "\nSource: foo\nBinary: bar\n", "Source: foo\n", "  -----BEGIN PGP SIGNED MESSAGE-----\nHash: SHA256\n\nHello\n-----BEGIN PGP SIGNATURE-----\nAAAA\n-----END PGP SIGNATURE-----\n",
+                  "\n-----BEGIN PGP SIGNED MESSAGE-----\nHash: SHA256\n\nHello\n-----BEGIN PGP SIGNATURE-----\nAAAA\n-----END PGP SIGNATURE-----\n"] {
+            n += 1;
+            match debian_control::pgp::strip_pgp_signature(t) {
+                Ok((p, None)) if p == t => {}
+                other => return Err(fail(t, "text that does not begin with the clear-sign marker is not returned unchanged", format!("({:?}, None)", t), format!("{:?}", other))),
+            }
+        }
+        Ok(n)
+    }
+}
+// ---------------------------------------------------------------------------------------------------------
 // C18 (bounded stand-in for the value types outside the contracts: VCS locations, package-list entries, signed-by values,
 // the DEP-3 origin read through the typed patch header): printing a parsed canonical text returns that text - also for
 // equal values built separately - and parsing the text of a value returns an equal value
@@ -1151,6 +1214,8 @@ mod anytext {
         let mut r = Rng(crate::seed_mix(0x6A09E667F3BCC909));
         let mut inputs = all_strings(DEB_ALPHA, 4);
         inputs.extend(random_strings(&mut r, DEB_ALPHA, 20000 * crate::scale(), 16));
+        // characters an editor or a transfer may add in front: byte order mark, zero width space, no-break space
+        for pre in ["\u{feff}", "\u{200b}", "\u{a0}"] { for t in ["", "Source: foo\n", "# c\n\nSource: foo\n", "\nA: b"] { inputs.push(format!("{}{}", pre, t)); } }
         for s in &inputs { check_c01(s)?; }
         Ok(inputs.len())
     }
@@ -1716,6 +1781,10 @@ fn main() {
     }
     if prop == "C12" {
         match sat::run() { Ok(n) => { eprintln!("vwit C12: no failing input among {} field / installed-set pairs", n); return; } Err(f) => f.print_and_exit() }
+    }
+    if prop == "C19" {
+        std::panic::set_hook(Box::new(|_| {}));
+        match pgp19::run() { Ok(n) => { eprintln!("vwit C19: no failing input among {} messages", n); return; } Err(f) => f.print_and_exit() }
     }
     if prop == "C18" {
         std::panic::set_hook(Box::new(|_| {}));
